@@ -106,3 +106,10 @@ Proof.
   intros t1 t2 freq H. unfold floor_second, second in *.
   pose proof (Z.div_mod t1 1000000000 ltac:(lia)). pose proof (Z.mod_pos_bound t1 1000000000 ltac:(lia)). lia.
 Qed.
+
+(** a creation limit that is zero or negative (a negative maxParallelPodCreation or slowStartAdditiveIncrease, which the
+    schema accepts) means: create nothing - never a negative count *)
+Theorem nonpositive_limit_creates_nothing : forall p, lp_max_creation p <= 0 -> calc_create p = 0.
+Proof. intros p H. unfold calc_create. lia. Qed.
+Theorem create_count_nonnegative : forall p, 0 <= calc_create p /\ 0 <= calc_delete p.
+Proof. intros p. unfold calc_create, calc_delete. lia. Qed.
